@@ -61,6 +61,12 @@ CrystalVerdict(t) ==
      THEN "OOD cell" ELSE
   IF CGrow(base.atoms, {1}) # DOMAIN base.atoms THEN "OOD not-one-molecule" ELSE
   IF ~PeriodicClear(base, 460) THEN "OOD molecules-touch" ELSE
+  \* "no surface inside the bounds" (a loosely packed listing: some direction meets no neighbour) is an outcome like any
+  \* other: it must be the outcome of every listing of the arrangement; nothing more can be said about such a trace
+  IF t.poses[1].exc = "ValueError:isovalue" THEN
+     (IF \A k \in 2..Len(t.poses) : ~CWordOK(base, t.poses[k].word) \/ CApplyWord(base, t.poses[k].word) # CCfg(t.poses[k])
+                                       \/ t.poses[k].exc = "ValueError:isovalue"
+      THEN "OOD surface-not-inside-bounds" ELSE "REJECT ListingInvariance:raised-in-some:" \o t.kind) ELSE
   IF t.poses[1].exc # "" THEN "REJECT Raised:" \o t.kind ELSE
   IF t.poses[1].rows = <<>> THEN "REJECT NoRows:" \o t.kind ELSE
   IF bad = {} THEN "ACCEPT" ELSE
